@@ -15,7 +15,7 @@ from hypothesis import settings, HealthCheck
 from hypothesis.stateful import RuleBasedStateMachine, rule, invariant, initialize, precondition, run_state_machine_as_test
 
 from pbt import inject, materialize, pipeline, stage_runner
-from pbt.core import Violation, scratch_root, derive_seed, spec_hash, VERIF_DIR, REPO_DIR
+from pbt.core import Violation, quiet, scratch_root, derive_seed, spec_hash, VERIF_DIR, REPO_DIR
 
 ID = 'C19'
 LEVEL = 'exploration'
@@ -143,6 +143,7 @@ class History(RuleBasedStateMachine):
         self.dirty = False        # a failure or planted files happened
         self.nontrivial = False
         self.n_invalid = 0
+        self.n_obsm = 0
         self.n_plant = 0
         self.tolerated = set()    # scratch leftovers of failing non-mapping stages + planted files
 
@@ -277,6 +278,55 @@ class History(RuleBasedStateMachine):
         self._check_outputs(ob, tag, what)
         self._check_scratch(sb, what, strict=True)
 
+    @precondition(lambda self: self.n_obsm < 1)
+    @rule(n_processors=st.integers(1, 2))
+    def run_mapping_storing_results_in_query(self, n_processors):
+        """the one case in which the query file may be written to: obsm_key is set"""
+        import anndata
+        from pbt import mapping
+        self.n_obsm += 1
+        self.step += 1
+        tag = f'm{self.step}'
+        what = ['run_mapping_storing_results_in_query', n_processors]
+        self.trace.append(what)
+        sb, ob = listing(self.scratch), listing(self.out)
+        q = self.ind / 'query.h5ad'
+        before = {k: v for k, v in pipeline.h5_content(q, skip=()).items() if k.split('/')[0] in ('X', 'obs', 'var')}
+        params = {'n_processors': n_processors}
+        a = stage_args('mapping', params, self.ind)
+        key = f'cdm_{self.step}'
+        cfg = dict(a['cfg'], tmp_name=str(self.scratch), obsm_key=key)
+        paths = {'stats': self.ind / 'stats.h5', 'query': q, 'markers': self.ind / 'markers.json'}
+        o = mapping.run(self.out, paths, cfg, out_prefix=tag)
+        if not o.ok:
+            self._fail('successful_run_raised', {'step': what, 'error': f'{type(o.error).__name__}: {str(o.error)[:300]}'})
+        after = {k: v for k, v in pipeline.h5_content(q, skip=()).items() if k.split('/')[0] in ('X', 'obs', 'var')}
+        if before != after:
+            self._fail('query_data_changed_while_storing_results', {'step': what, 'differing': [k for k in before if before[k] != after.get(k)][:5]})
+        with quiet():
+            ad = anndata.read_h5ad(q, backed='r')
+            df = ad.obsm[key]
+            obs_index = [str(x) for x in ad.obs.index]
+            df_index = [str(x) for x in df.index]
+            cols = {c: [str(v) for v in df[c].values] for c in df.columns if c.endswith('_label')}
+            ad.file.close()
+        if df_index != obs_index:
+            self._fail('stored_results_not_in_obs_order', {'step': what})
+        for lv in TREE['hierarchy']:
+            want = [r[lv]['assignment'] for r in o.out['results']]
+            if cols.get(f'{lv}_label') != want:
+                self._fail('stored_results_differ_from_json', {'step': what, 'level': lv})
+        # every other input untouched; the query's new digest is the reference from now on
+        self.in_digests['query.h5ad'] = digest_file(q)
+        self._check_inputs(what)
+        self._check_scratch(sb, what, strict=True)
+        self._check_outputs(ob, tag, what)
+        want = baseline('mapping', params)
+        got = stage_runner.digest_results(o.out)
+        diff = [k for k in sorted(set(want) | set(got)) if want.get(k) != got.get(k)]
+        if diff:
+            self._fail('result_depends_on_history', {'step': what, 'differing': diff})
+
     @precondition(lambda self: self.n_plant < 2)
     @rule(where=st.sampled_from(['scratch', 'out']), idx=st.lists(st.integers(0, len(STALE_PATTERNS) - 1), min_size=1, max_size=6, unique=True),
           content=st.sampled_from(['garbage', 'plausible']))
@@ -395,6 +445,8 @@ def check(spec):
                     m.run_invalid_mapping(kind=step[1])
                 elif name == 'plant_stale':
                     m.plant_stale(where=step[1], idx=[STALE_PATTERNS.index(x) for x in step[2]], content=step[3])
+                elif name == 'run_mapping_storing_results_in_query':
+                    m.run_mapping_storing_results_in_query(n_processors=step[1])
                 elif name == 'concurrent_pair':
                     m.concurrent_pair(stage_a=step[1], pa=step[2], stage_b=step[3], pb=step[4])
             except Fail:
